@@ -97,6 +97,7 @@ func TestVerifC03Lock(t *testing.T) {
 			return vs.ZKProceed
 		}
 		told := map[int]bool{}
+		serverDown := false
 		cachedAfterFault := false
 		checkedDeletes := 0
 
@@ -208,6 +209,14 @@ func TestVerifC03Lock(t *testing.T) {
 					// lock between this client's lost request and its retry
 					rv := clients[(cl.slot+1+c.Src.Int("rival", 0, n-2))%n]
 					a.rival = func() {
+						// only a rival whose own path to the server is clean acts (its call has to return
+						// before the armed request is answered; a rival stuck in retries would block
+						// the armed client's server goroutine for good)
+						healthy := false
+						srv.Link(rv.name).Set(func(l *vs.ZKLink) { healthy = !l.Refuse && !l.DropC2S && !l.DropS2C && l.Delay == 0 })
+						if !healthy || serverDown {
+							return
+						}
 						if rv.d.AcquireLock("manager") {
 							told[rv.slot] = true
 							c.Tracef("%v rival %s acquired inside %s's request", time.Now().Format("15:04:05.000"), rv.name, cl.name)
@@ -217,11 +226,13 @@ func TestVerifC03Lock(t *testing.T) {
 				arm[cl.name] = a
 				cl.faulted = true
 			case "server-down":
+				serverDown = true
 				srv.SetDown(true)
 				for _, x := range clients {
 					x.faulted = true
 				}
 			case "server-up":
+				serverDown = false
 				srv.SetDown(false)
 			}
 			synctest.Wait()
